@@ -7,6 +7,7 @@ import (
 	"math/big"
 	"sort"
 	"strings"
+	"time"
 )
 
 // Row is one record of an in-memory table; values are what a PostgreSQL
@@ -305,6 +306,279 @@ func (e *Engine) boolExpr(c []Token, filters *[]string) (pred, bool) {
 	return e.conjunct(c, filters)
 }
 
+type orderKey struct {
+	col  string
+	desc bool
+}
+
+// parseOrderKeys reads `[t .] col [asc|desc] {, ...}`.
+func parseOrderKeys(o []Token) []orderKey {
+	var keys []orderKey
+	var cur []Token
+	flush := func() {
+		if len(cur) == 0 {
+			return
+		}
+		k := orderKey{}
+		if n := len(cur); cur[n-1].Kind == TIdent && (cur[n-1].Text == "desc" || cur[n-1].Text == "asc") {
+			k.desc = cur[n-1].Text == "desc"
+			cur = cur[:n-1]
+		}
+		if len(cur) > 0 {
+			k.col = lowerIdent(cur[len(cur)-1])
+			keys = append(keys, k)
+		}
+		cur = nil
+	}
+	for _, t := range o {
+		if t.Kind == TOp && t.Text == "," {
+			flush()
+			continue
+		}
+		cur = append(cur, t)
+	}
+	flush()
+	return keys
+}
+
+func cmpValues(a, b driver.Value) int {
+	if a == nil || b == nil {
+		// NULLs sort last in ascending order (PostgreSQL default), first in descending
+		switch {
+		case a == nil && b == nil:
+			return 0
+		case a == nil:
+			return 1
+		default:
+			return -1
+		}
+	}
+	if at, ok := a.(time.Time); ok {
+		if bt, ok := b.(time.Time); ok {
+			return at.Compare(bt)
+		}
+	}
+	if ai, bi := rowInt(a), rowInt(b); ai != nil && bi != nil {
+		return ai.Cmp(bi)
+	}
+	return strings.Compare(fmt.Sprint(a), fmt.Sprint(b))
+}
+
+func sortRows(rows []Row, keys []orderKey) {
+	sort.SliceStable(rows, func(i, j int) bool {
+		for _, k := range keys {
+			c := cmpValues(rows[i][k.col], rows[j][k.col])
+			if k.desc {
+				c = -c
+			}
+			if c != 0 {
+				return c < 0
+			}
+		}
+		return false
+	})
+}
+
+// joinSpec is `left join T2 on <cond>` or `left join lateral (select * from T2 where <cond> order by ... limit n) as T2 on true`.
+type joinSpec struct {
+	table   string
+	fk, pk  string // T2.fk = T1.pk
+	dateOp  string // "<" or "<=" ("" = no bound)
+	dateCol string
+	date    time.Time
+	lateral bool
+	order   []orderKey
+	limit   int // 0 = none
+}
+
+// parseJoin understands the two shapes above; it returns a reason when it does not.
+func (e *Engine) parseJoin(j []Token, mainTable string) (*joinSpec, string) {
+	js := &joinSpec{}
+	if len(j) < 4 || j[0].Text != "left" || j[1].Text != "join" {
+		return nil, "not a left join"
+	}
+	var cond []Token
+	if j[2].Kind == TIdent && j[2].Text == "lateral" {
+		js.lateral = true
+		if !(j[3].Kind == TOp && j[3].Text == "(") {
+			return nil, "lateral without a sub-select"
+		}
+		depth, end := 0, -1
+		for i := 3; i < len(j); i++ {
+			if j[i].Kind == TOp && j[i].Text == "(" {
+				depth++
+			} else if j[i].Kind == TOp && j[i].Text == ")" {
+				depth--
+				if depth == 0 {
+					end = i
+					break
+				}
+			}
+		}
+		if end < 0 {
+			return nil, "unbalanced sub-select"
+		}
+		sub := j[4:end]
+		if len(sub) < 4 || sub[0].Text != "select" {
+			return nil, "sub-select expected"
+		}
+		f := topLevel(sub, 0, "from")
+		w := topLevel(sub, 0, "where")
+		o := topLevel(sub, 0, "order")
+		l := topLevel(sub, 0, "limit")
+		if f < 0 || w < 0 {
+			return nil, "sub-select without FROM / WHERE"
+		}
+		js.table = lowerIdent(sub[f+1])
+		endW := len(sub)
+		for _, x := range []int{o, l} {
+			if x > w && x < endW {
+				endW = x
+			}
+		}
+		cond = sub[w+1 : endW]
+		if o >= 0 {
+			endO := len(sub)
+			if l > o {
+				endO = l
+			}
+			if o+1 >= len(sub) || sub[o+1].Text != "by" {
+				return nil, "ORDER without BY"
+			}
+			js.order = parseOrderKeys(sub[o+2 : endO])
+		}
+		if l >= 0 && l+1 < len(sub) {
+			n, ok := intOf(sub[l+1])
+			if !ok {
+				return nil, "LIMIT not an integer"
+			}
+			js.limit = int(n.Int64())
+		}
+		rest := textOf(j[end+1:])
+		if !strings.HasSuffix(rest, "on true") {
+			return nil, "lateral join condition is not `on true`: " + rest
+		}
+	} else {
+		js.table = lowerIdent(j[2])
+		on := -1
+		for i := 3; i < len(j); i++ {
+			if j[i].Kind == TIdent && j[i].Text == "on" {
+				on = i
+				break
+			}
+		}
+		if on < 0 {
+			return nil, "join without ON"
+		}
+		cond = j[on+1:]
+	}
+	// cond: conjuncts `a . x = b . y` and `[t .] date <|<= 'ts'`
+	for _, c := range splitAnd(cond) {
+		c = stripParens(c)
+		// qualified names collapse to (table, column)
+		type ref struct{ t, c string }
+		var refs []ref
+		var ops []string
+		var consts []Token
+		for i := 0; i < len(c); i++ {
+			t := c[i]
+			switch {
+			case t.Kind == TIdent || t.Kind == TQuotedIdent:
+				r := ref{"", lowerIdent(t)}
+				if i+2 < len(c) && c[i+1].Kind == TOp && c[i+1].Text == "." {
+					r = ref{lowerIdent(t), lowerIdent(c[i+2])}
+					i += 2
+				}
+				refs = append(refs, r)
+			case t.Kind == TOp:
+				ops = append(ops, t.Text)
+			case t.Kind == TString:
+				consts = append(consts, t)
+			}
+		}
+		switch {
+		case len(refs) == 2 && len(ops) == 1 && ops[0] == "=" && len(consts) == 0:
+			a, b := refs[0], refs[1]
+			if a.t == js.table && b.t == mainTable {
+				js.fk, js.pk = a.c, b.c
+			} else if b.t == js.table && a.t == mainTable {
+				js.fk, js.pk = b.c, a.c
+			} else {
+				return nil, "join equality between unexpected tables: " + textOf(c)
+			}
+		case len(refs) == 1 && len(ops) == 1 && (ops[0] == "<" || ops[0] == "<=") && len(consts) == 1:
+			ts, err := time.Parse(time.RFC3339Nano, consts[0].Text)
+			if err != nil {
+				return nil, "time bound " + consts[0].Text
+			}
+			js.dateOp, js.dateCol, js.date = ops[0], refs[0].c, ts
+		default:
+			return nil, "join conjunct: " + textOf(c)
+		}
+	}
+	if js.fk == "" {
+		return nil, "no key equality in the join"
+	}
+	return js, ""
+}
+
+// applyJoin gives the rows of `main LEFT JOIN spec`: per main row its matching revision rows (their
+// metadata / revision / date override the main row's columns of the same name), or the row itself
+// with NULLs when nothing matches.
+func (e *Engine) applyJoin(main []Row, js *joinSpec) []Row {
+	t2 := e.Tables[js.table]
+	var out []Row
+	for _, r := range main {
+		var matches []Row
+		for _, m := range t2.Rows {
+			if fmt.Sprint(m[js.fk]) != fmt.Sprint(r[js.pk]) {
+				continue
+			}
+			if js.dateOp != "" {
+				d, ok := m[js.dateCol].(time.Time)
+				if !ok {
+					continue
+				}
+				if js.dateOp == "<" && !d.Before(js.date) {
+					continue
+				}
+				if js.dateOp == "<=" && d.After(js.date) {
+					continue
+				}
+			}
+			matches = append(matches, m)
+		}
+		if js.lateral {
+			if len(js.order) > 0 {
+				sortRows(matches, js.order)
+			}
+			if js.limit > 0 && len(matches) > js.limit {
+				matches = matches[:js.limit]
+			}
+		}
+		if len(matches) == 0 {
+			nr := Row{}
+			for k, v := range r {
+				nr[k] = v
+			}
+			nr["metadata"], nr["revision"], nr["date"] = nil, nil, nil
+			out = append(out, nr)
+			continue
+		}
+		for _, m := range matches {
+			nr := Row{}
+			for k, v := range r {
+				nr[k] = v
+			}
+			for _, k := range []string{"metadata", "revision", "date"} {
+				nr[k] = m[k]
+			}
+			out = append(out, nr)
+		}
+	}
+	return out
+}
+
 // Answer implements sqlrec.Answer.
 func (e *Engine) Answer(sql string) ([]string, [][]driver.Value, error) {
 	toks, err := Lex(sql)
@@ -367,14 +641,21 @@ func (e *Engine) selectRows(toks []Token, sql string, record bool) ([]string, []
 		}
 		return b
 	}
-	// anything between the table name and the first clause (joins ...) is not supported
-	// left joins that only add metadata revisions / lateral metadata do not change which rows
-	// of the static collection are listed: they are skipped
+	// between the table name and the first clause: nothing, or one left join (plain or lateral) that
+	// attaches the rows of a revisions table (<x>_metadata) to each row of the main table
 	first := bound(from + 1)
+	var join *joinSpec
 	if first != from+2 {
 		j := toks[from+2]
 		if !(j.Kind == TIdent && (j.Text == "as" || j.Text == "left")) {
 			return e.unhandled("FROM clause not understood: %s", sql)
+		}
+		if j.Text == "left" {
+			js, err := e.parseJoin(toks[from+2:first], tname)
+			if err != "" {
+				return e.unhandled("join not understood (%s): %s", err, sql)
+			}
+			join = js
 		}
 	}
 	var preds []pred
@@ -388,8 +669,15 @@ func (e *Engine) selectRows(toks []Token, sql string, record bool) ([]string, []
 			preds = append(preds, p)
 		}
 	}
+	base := table.Rows
+	if join != nil {
+		if _, ok := e.Tables[join.table]; ok {
+			base = e.applyJoin(table.Rows, join)
+		}
+		// a revisions table the test did not provide: every row has no revision (left join => one row each)
+	}
 	var out []Row
-	for _, r := range table.Rows {
+	for _, r := range base {
 		keep := true
 		for _, p := range preds {
 			if !p(r) {
@@ -406,36 +694,31 @@ func (e *Engine) selectRows(toks []Token, sql string, record bool) ([]string, []
 		if len(o) < 2 || o[0].Text != "by" {
 			return e.unhandled("ORDER without BY: %s", sql)
 		}
-		o = o[1:]
-		// secondary keys only order metadata revisions of one row: the first key decides
-		for i, t := range o {
-			if t.Kind == TOp && t.Text == "," {
-				o = o[:i]
-				break
+		keys := parseOrderKeys(o[1:])
+		if len(keys) == 0 {
+			return e.unhandled("ORDER BY not understood: %s", sql)
+		}
+		sortRows(out, keys)
+	}
+	// SELECT DISTINCT ON (<col>) ...: the first row of each value, in the order just established
+	if len(toks) > 6 && toks[1].Kind == TIdent && toks[1].Text == "distinct" && toks[2].Kind == TIdent && toks[2].Text == "on" && toks[3].Kind == TOp && toks[3].Text == "(" {
+		k := 4
+		col := ""
+		for ; k < len(toks) && !(toks[k].Kind == TOp && toks[k].Text == ")"); k++ {
+			if toks[k].Kind == TIdent || toks[k].Kind == TQuotedIdent {
+				col = lowerIdent(toks[k])
 			}
 		}
-		desc := false
-		if n := len(o); n > 0 && o[n-1].Kind == TIdent && (o[n-1].Text == "desc" || o[n-1].Text == "asc") {
-			desc = o[n-1].Text == "desc"
-			o = o[:n-1]
+		seen := map[string]bool{}
+		var kept []Row
+		for _, r := range out {
+			v := fmt.Sprint(r[col])
+			if !seen[v] {
+				seen[v] = true
+				kept = append(kept, r)
+			}
 		}
-		col := lowerIdent(o[len(o)-1])
-		sort.SliceStable(out, func(i, j int) bool {
-			a, b := out[i][col], out[j][col]
-			var less bool
-			if ai, bi := rowInt(a), rowInt(b); ai != nil && bi != nil {
-				less = ai.Cmp(bi) < 0
-				if desc {
-					less = ai.Cmp(bi) > 0
-				}
-				return less
-			}
-			as, bs := fmt.Sprint(a), fmt.Sprint(b)
-			if desc {
-				return as > bs
-			}
-			return as < bs
-		})
+		out = kept
 	}
 	if offset >= 0 {
 		n, ok := intOf(toks[offset+1])
